@@ -301,6 +301,9 @@ pub struct UdpSock {
     pub closed: bool,
     pub read_timeout: Option<Duration>,
     pub delivered: u64,
+    /// real (non-phantom) datagrams still queued when the run ended, before teardown closed the
+    /// socket; None if the socket was closed earlier by its owner
+    pub unread_at_end: Option<usize>,
 }
 
 #[derive(Debug, Default)]
@@ -818,6 +821,7 @@ impl World {
             closed: false,
             read_timeout: None,
             delivered: 0,
+            unread_at_end: None,
         });
         id
     }
@@ -1674,6 +1678,14 @@ pub fn run() -> Outcome {
         }
     };
 
+    // what was still queued where, before teardown closes every socket
+    with(|w| {
+        for s in w.socks.iter_mut() {
+            if !s.closed {
+                s.unread_at_end = Some(s.queue.iter().filter(|d| !d.phantom).count());
+            }
+        }
+    });
     // tear down: unwind every task that is still suspended, recycle stacks
     with(|w| w.current = None);
     for t in 0..cos.len() {
